@@ -66,3 +66,28 @@ def in_range(b):
 
 
 CASES["in_range"] = [(bytes([v]),) for v in (0, 1, 3, 10, 45, 49, 99, 100, 255)]
+
+
+import functools
+import itertools
+import operator
+from typing import NamedTuple
+
+
+class _Pt(NamedTuple):
+    x: int
+    y: int = 7
+
+
+def lib_idioms(b):
+    add3 = functools.partial(lambda a, c, d=0: a * 100 + c * 10 + d, 3, d=5)
+    p = _Pt._make([b[0], 2])
+    q = p._replace(y=9)
+    get = operator.attrgetter("x", "y")
+    view = memoryview(b)
+    return [add3(4), list(itertools.chain([1], (2, 3), b)), list(itertools.chain.from_iterable([[1, 2], [], [b[0]]])),
+            {"a": 1, "b": 2} | {"b": 3, "c": 4}, p, q, q._asdict(), _Pt._fields, get(q), operator.itemgetter(1)(b), operator.or_(b[0], 1),
+            bytes(view[1:3]), len(view), divmod(b[0], 32), functools.reduce(operator.add, b, 0)]
+
+
+CASES["lib_idioms"] = [(bytes([5, 6, 7]),), (bytes([255, 0, 128, 9]),)]
